@@ -19,7 +19,7 @@ GROW_STEPS = [None, 1, 8, 24, 64, 1000]
 DTYPES = ["int8", "uint8", "int16", "uint16", "int32", "uint32", "int64", "uint64", "float32", "float64"]
 WRITE_PRIMS = ["from_buffer", "from_native_self", "from_native_other", "from_xbuffer", "from_nplike"]
 READ_PRIMS = ["to_bytearray", "to_native", "copy_to_native", "to_nplike", "to_nparray", "to_pointer_arg"]
-SRC_FORMS = ["bytes", "bytearray", "memoryview", "npdata_u8", "npdata_i8", "npdata_typed"]
+SRC_FORMS = ["bytes", "bytearray", "memoryview", "npdata_u8", "npdata_i8", "npdata_typed", "array_d", "array_i", "array_H", "ctypes_d", "ctypes_i32"]
 NP_LAYOUTS = ["c1d", "c2d", "f2d", "strided1d", "strided2d", "c3d", "be1d", "be2d"]
 
 
@@ -301,6 +301,8 @@ class GenSource:
                 # the source is a permuted view of the destination itself (x.v = x.v[::-1], m = m.T)
                 op["layout"] = rng.choice(["self_rev", "self_T"])
                 op["src_dtype"] = op["dtype"]
+            elif rng.random() < 0.2:
+                op["reuse"] = True  # the previous source array again, changed in place meanwhile
         return op
 
     def _read(self, w, live):
@@ -661,6 +663,22 @@ class BufSim:
                     n = ln // dt.itemsize
                     data = data[: n * dt.itemsize]
                     srcobj = np.frombuffer(bytearray(data), dtype=dt).data
+                elif form.startswith("array_") or form.startswith("ctypes_"):
+                    # buffer-protocol sources whose items are wider than a byte and that have no .nbytes
+                    import array as _array
+                    import ctypes as _ct
+
+                    if form.startswith("array_"):
+                        a = _array.array(form[-1])
+                        n = ln // a.itemsize
+                        data = data[: n * a.itemsize]
+                        a.frombytes(data)
+                        srcobj = a
+                    else:
+                        cty = _ct.c_double if form == "ctypes_d" else _ct.c_int32
+                        n = ln // _ct.sizeof(cty)
+                        data = data[: n * _ct.sizeof(cty)]
+                        srcobj = (cty * n).from_buffer_copy(data)
                 elif form == "bytes":
                     srcobj = bytes(data)
                 elif form == "bytearray":
@@ -711,8 +729,19 @@ class BufSim:
                         val = buf.to_nplike(off, dt, (n,))[::-1]
                     contiguous = False
                     res.probe("nplike_source_is_permuted_view_of_destination")
+                elif op.get("reuse") and getattr(w, "last_np", None) is not None:
+                    # the SAME source object as in the previous write, its content changed in place since
+                    val, contiguous = w.last_np
+                    if val.size * dt.itemsize > ln or val.size == 0 or not val.flags.writeable:
+                        return
+                    sdt = val.dtype
+                    fresh, _ = _mk_nparray(op["seed"], np.dtype(sdt.name), val.size, "c1d")
+                    val[...] = fresh.reshape(val.shape)
+                    n = val.size
+                    res.probe("nplike_source_object_reused_after_inplace_change")
                 else:
                     val, contiguous = _mk_nparray(op["seed"], sdt, n, op["layout"])
+                    w.last_np = (val, contiguous)
                 feat += f":{op['layout']}:{'conv' if sdt != dt else 'same'}"
                 # independent expectation: C-order flattening after conversion
                 with np.errstate(all="ignore"):
